@@ -7,6 +7,53 @@ use serde_json::{json, Value};
 use std::io::Write;
 use vh::*;
 
+/// the leaves of a projected node in the order of the events that created them (keys before values)
+fn leaves<'a>(n: &'a Value, out: &mut Vec<&'a Value>) {
+    match n["t"].as_str() {
+        Some("seq") => n["v"].as_array().into_iter().flatten().for_each(|x| leaves(x, out)),
+        Some("map") => n["v"].as_array().into_iter().flatten().for_each(|p| {
+            leaves(&p[0], out);
+            leaves(&p[1], out);
+        }),
+        _ => out.push(n),
+    }
+}
+
+/// The loaded form of a well-formed text whose events are as denoted: every untagged scalar that is not plain must be
+/// loaded as a string with the denoted value (the text is only judged when loaded leaves and scalar events line up one to
+/// one: no alias, no repeated key).
+fn loaded_nonplain(text: &str, exp: &[Ev]) -> String {
+    use vh::nodes::*;
+    if exp.iter().any(|e| e.k == "Alias") {
+        return String::new();
+    }
+    let scalars: Vec<&Ev> = exp.iter().filter(|e| e.k == "Scalar").collect();
+    if !scalars.iter().any(|e| e.style != "plain" && e.tag.is_none()) {
+        return String::new();
+    }
+    for ty in [NodeTy::Yaml, NodeTy::MarkedOwned] {
+        let l = load_str(text, ty, false);
+        if let Some(p) = &l.panic {
+            return format!("loading panicked: {p}");
+        }
+        let docs = match &l.docs {
+            Some(d) => d,
+            None => return format!("the parser accepts the text, {}::load_from_str rejects it", ty.name()),
+        };
+        let mut lv = vec![];
+        docs.iter().for_each(|d| leaves(d, &mut lv));
+        if lv.len() != scalars.len() {
+            continue;
+        }
+        for (e, n) in scalars.iter().zip(lv.iter()) {
+            if e.style != "plain" && e.tag.is_none() && **n != json!({"t": "str", "v": e.v}) {
+                return format!("{} scalar {:?} is loaded by {} as {}", e.style, e.v, ty.name(), n);
+            }
+        }
+    }
+    String::new()
+}
+
 fn core(e: &Ev) -> (String, String, String, usize, Option<(String, String)>) {
     (e.k.to_string(), e.v.clone(), e.style.to_string(), e.aid, e.tag.clone())
 }
@@ -20,6 +67,7 @@ pub fn run(a: &Args) {
     let mut samples: Vec<Value> = vec![];
     let mut bads: Vec<Value> = vec![];
     let mut maxlen = 0usize;
+    let load = a.get("load").is_some();
     for v in &reps {
         let text = text_of(&v["text"]);
         n += 1;
@@ -55,6 +103,9 @@ pub fn run(a: &Args) {
                         w = format!("event {}: got {:?}, denoted {:?}", i + 1, core(x), core(y));
                         break;
                     }
+                }
+                if w.is_empty() && load && be == Backend::Str {
+                    w = loaded_nonplain(&text, &exp);
                 }
                 w
             };
